@@ -43,6 +43,20 @@ def universe(tier):
     return fams
 
 
+# operator spellings: the same families written with / * ** (these operators put one Variable object into several terms,
+# so a coding chosen for one term must not leak into another); the family is the set-semantics expansion of the text
+OPFORMS = ["f/g", "f/g/h", "f/(g + h)", "f/x", "x/f", "(f + g)**2", "(f + g + h)**2", "(f + g + h)**3", "f*g", "f*g*h", "f*g*h - f:g",
+           "f*x", "f*g + x", "f*g*x", "(f + x)**2", "f/g + h", "f/(g + x)", "g/f", "(g + h)**2", "h*g*f", "f/h/g", "f*g - f", "x*z*f"]
+
+
+def op_family(rhs):
+    from formulae.scanner import Scanner
+    from formulae.parser import Parser
+    from ..rtc.algebra import ev
+    terms, icpt = ev(Parser(Scanner(rhs).scan(False)).parse())
+    return tuple(tuple(str(v) for v in t) for t in terms), icpt != -1
+
+
 def formula_of(fam, icpt, rename=None):
     def nm(v):
         return rename.get(v, v) if rename else v
@@ -93,11 +107,30 @@ def _chunk(task):
     return out
 
 
+def _op_chunk(task):
+    import logging
+    import warnings
+    rhss, seed = task
+    from ..rtc.gen import factorial_frame
+    logging.getLogger("formulae").setLevel(logging.CRITICAL)
+    warnings.simplefilter("ignore")
+    rng = np.random.default_rng(seed)
+    d = factorial_frame(rng, {"f": ["a", "b", "c"], "g": ["u", "v"], "h": ["p", "q", "r"]}, reps=3)
+    out = {}
+    for rhs in rhss:
+        fam, icpt = op_family(rhs)
+        out["y ~ " + rhs] = evaluate("y ~ " + rhs, fam, icpt, d)
+    return out
+
+
 def results(tier, seed):
     fams = universe(tier)
     chunks = [(fams[i::128], seed) for i in range(128)]
     merged = {}
     for r in par.pmap(_chunk, chunks):
+        merged.update(r)
+    ops = OPFORMS + ["0 + " + r for r in OPFORMS]
+    for r in par.pmap(_op_chunk, [(ops[i::16], seed) for i in range(16)]):
         merged.update(r)
     return merged
 
@@ -115,7 +148,18 @@ FINDING_OF = {"IndexError@eval": "C03-empty-coding", "span": "C03-lost-dimension
               "rank-deficient": "C03-redundant-columns"}
 
 
+def PROOFS():
+    """The per-factor part of the coding under contract: a factor evaluated with spans_intercept gets the full indicator
+    coding, otherwise the reduced one, chosen afresh at every evaluation (the redundancy analysis of contrasts.py that decides
+    spans_intercept per term is NOT under contract: bounded tier only)."""
+    from ..contracts import categorical_c, variable_c  # noqa: F401
+    return [("vf.contracts.categorical_c", categorical_c.FUNCTIONS),
+            ("vf.contracts.variable_c", ["formulae.terms.variable.Variable.eval_categoric", "formulae.terms.call.Call.eval_categoric"])]
+
+
 def run(report, findings):
+    from .. import checklib
+    checklib.run_proofs(report, "C03", PROOFS())
     with gzip.open(KNOWN, "rt") as fh:
         known = json.load(fh)
     fk = {f["id"] for f in findings if f.get("kind") == "finding"}
